@@ -926,6 +926,59 @@ async fn run_lo(args: &[&str]) -> String {
             out.push(format!("fwd={}.{:08x}", cnt, h));
             out.push(format!("eof={}", eof));
         }
+        "chunks" => {
+            // both relays of both ends (C01_tunnel_*): the application uploads the chunks of plan args[6] one by one with a
+            // pause of args[8] ms between them (so that the copy loops see reads of different lengths over the same
+            // buffer), the target reads everything; then the target sends the chunks of plan args[7] the same way
+            let sizes = |s: &str| -> Vec<usize> {
+                if s == "-" {
+                    Vec::new()
+                } else {
+                    s.split(',').map(|x| x.parse().unwrap()).collect()
+                }
+            };
+            let up = sizes(args.get(6).copied().unwrap_or("-"));
+            let down = sizes(args.get(7).copied().unwrap_or("-"));
+            let pause = ms(args.get(8).map(|s| s.parse().unwrap()).unwrap_or(2));
+            let total_up: usize = up.iter().sum();
+            let total_down: usize = down.iter().sum();
+            let data = genb('c', 1, 0, total_up);
+            let mut off = 0usize;
+            let mut tread = tokio::spawn(async move {
+                let (got, _) = read_some(&mut tconn, Some(total_up), ms(20_000)).await;
+                (tconn, got)
+            });
+            for k in &up {
+                app.write_all(&data[off..off + k]).await.unwrap();
+                off += k;
+                tokio::time::sleep(pause).await;
+            }
+            let (mut tconn2, got) = (&mut tread).await.unwrap();
+            out.push(format!("fwd={}", sum_tok(&got)));
+            let back = genb('s', 1, 0, total_down);
+            let mut off = 0usize;
+            let aread = tokio::spawn(async move {
+                let (got, _) = read_some(&mut app, Some(total_down), ms(20_000)).await;
+                (app, got)
+            });
+            for k in &down {
+                tconn2.write_all(&back[off..off + k]).await.unwrap();
+                off += k;
+                tokio::time::sleep(pause).await;
+            }
+            let (mut app2, rev) = aread.await.unwrap();
+            out.push(format!("rev={}", sum_tok(&rev)));
+            // nothing more arrives at either end while both stay open
+            let (more_t, _) = read_some(&mut tconn2, None, ms(50)).await;
+            let (more_a, _) = read_some(&mut app2, None, ms(50)).await;
+            out.push(format!("extra={}", more_t.len() + more_a.len()));
+            let srv = servers.lock().unwrap().first().cloned();
+            if let Some(s) = srv {
+                let (a, b) = s.verif_table_sizes().await;
+                out.push(format!("srv_tables={}.{}", a, b));
+            }
+            return out.join(" ");
+        }
         "tgt_eof" => {
             // target -> application: n bytes, then the target half-closes
             let data = genb('s', 1, 0, n);
